@@ -82,15 +82,16 @@ Record kcase := mkKCase {
   k_root_after : bytes; k_after : list edge_view;
   k_reopen2_same : bool;                  (* a second reopen shows the same root, key and content *)
   k_key_same : bool;                      (* signing key unchanged w.r.t. what the writer saw *)
-  k_one_meta : bool }.                    (* exactly one meta row *)
+  k_one_meta : bool;                      (* exactly one meta row *)
+  k_one_root : bool }.                    (* the instance root is the lower end of a top-level edge (the only one after a kill during initialisation) *)
 
 Definition kcase_of_val (v : val) : option kcase :=
   match v with
-  | VL [hi; root; init; ops; acked; rok; root2; after; r2; ks; om] =>
+  | VL [hi; root; init; ops; acked; rok; root2; after; r2; ks; om; orr] =>
       hi <- get_bool hi ;; root <- get_b root ;; init <- views_of_val init ;; ops <- get_list op_of_val ops ;;
       acked <- get_nat acked ;; rok <- get_bool rok ;; root2 <- get_b root2 ;; after <- views_of_val after ;;
-      r2 <- get_bool r2 ;; ks <- get_bool ks ;; om <- get_bool om ;;
-      Some (mkKCase hi root init ops acked rok root2 after r2 ks om)
+      r2 <- get_bool r2 ;; ks <- get_bool ks ;; om <- get_bool om ;; orr <- get_bool orr ;;
+      Some (mkKCase hi root init ops acked rok root2 after r2 ks om orr)
   | _ => None
   end.
 
@@ -101,7 +102,7 @@ Definition after_prefix (c : kcase) (j : nat) : bool :=
   views_eqb (project st) (k_after c) && bytes_eqb (s_root st) (k_root_after c).
 
 Definition check_c04_case (c : kcase) : N :=
-  let basic := k_reopen_ok c && k_reopen2_same c && k_key_same c && k_one_meta c && spec_hashes_ok (k_after c) in
+  let basic := k_reopen_ok c && k_reopen2_same c && k_key_same c && k_one_meta c && k_one_root c && spec_hashes_ok (k_after c) in
   if k_has_init c then
     let atomic := after_prefix c (k_acked c) || after_prefix c (S (k_acked c)) in
     (* model prefix = observed recovery: both the correspondence and the atomicity specification *)
